@@ -4,7 +4,7 @@
    table) and EVERY finite sequence of operations (issue / poll / cancel / finish / upgrade / dial
    outcomes / connection ready / connection closed / background run / clock tick), of any length.
    "At every point of every history": the bound is an invariant of every intermediate state. *)
-From HD Require Import common.Base http.Model pool.Model pool.Spec pool.ProofsC15.
+From HD Require Import common.Base http.Model pool.Model pool.Spec pool.SpecC15d pool.ProofsC15 pool.ProofsC15d.
 
 (* the executable C15 monitor accepts the model's trace of every history *)
 Theorem c15_monitor : forall cfg ops, mon_C15 cfg ops (trace cfg ops) = true.
@@ -27,3 +27,45 @@ Example c15_example :
   map (fun p => map fst (p_idle p)) (toks (run cfg ops)) = [[0]]
   /\ existsb (fun e => match e with EDrop 1 => true | _ => false end) (o_events (last (trace cfg ops) (mkObs [] [] []))) = true.
 Proof. vm_compute. auto. Qed.
+
+(* ------------------------------------------------------------------ second clause: what the pool retains at the end
+   of a drained history (pool/SpecC15d.v; proof in pool/ProofsC15d.v on top of the handle-accounting
+   invariant of pool/AccC15*.v, the hand-back-task scheduling invariant of pool/SchedC15.v, the closing
+   procedure of pool/LiveC03c.v + pool/DrainC15.v, the same-origin invariant of C06 and the bound above).
+   Same quantification as [c03_monitor]: every configuration, every finite history [body], followed by
+   the closing procedure [drain_ops] and the probe.  Judged on the FINAL tracker: for every origin (scheme +
+   authority of the request whose dial created the connection) the connections that were created, have
+   not been dropped (no EDrop) and are not held by a request (no request whose status is SHeld c) number at
+   most max_idle_per_host - none at all when the pool is disabled.  Independent of the pool's own
+   token table: a pool that forgot an origin and parked its connections under two tokens is caught. *)
+Theorem c15_retained_after_drain : forall cfg body u p,
+  let ops := body ++ drain_ops (count_issues body) u p in
+  mon_C15_drained cfg (final_mst cfg m0 ops (trace cfg ops)) = true.
+Proof. exact mon_C15_drained_holds. Qed.
+Check c15_retained_after_drain : forall cfg body u p,
+  let ops := body ++ drain_ops (count_issues body) u p in
+  mon_C15_drained cfg (final_mst cfg m0 ops (trace cfg ops)) = true.
+Print Assumptions c15_retained_after_drain.
+
+(* the monitor that check_prop 15 evaluates on drained cases: both clauses *)
+Theorem c15_monitor_drained : forall cfg body u p,
+  let ops := body ++ drain_ops (count_issues body) u p in mon_C15_all cfg ops true (trace cfg ops) = true.
+Proof. exact mon_C15_all_holds. Qed.
+Print Assumptions c15_monitor_drained.
+
+(* non-vacuity: three connections to one origin, max_idle = 2, probe to another origin: after the closing
+   procedure two connections (0 and 1) are retained for the origin - the bound is reached -, the third
+   was dropped, the probe's own connection (3) is held and does not count; the same final tracker is
+   REJECTED when judged against max_idle = 1 *)
+Example c15_retained_example :
+  let cfg := mkCfg true None 2 true [Some ("http", "a.test")%string; Some ("http", "b.test")%string] in
+  let body := [Issue 0 H1; Issue 0 H1; Issue 0 H1; Poll 0; Poll 1; Poll 2; DialDone 0 (DOk false); DialDone 1 (DOk false);
+               DialDone 2 (DOk false); Poll 0; Poll 1; Poll 2] in
+  let ops := body ++ drain_ops (count_issues body) 1 H1 in
+  let m := final_mst cfg m0 ops (trace cfg ops) in
+  retained_for m (Some ("http", "a.test")%string) = [0; 1]
+  /\ map ci_dropped (m_conns m) = [false; false; true; false]
+  /\ mon_C15_drained cfg m = true
+  /\ mon_C15_drained (mkCfg true None 1 true (g_uris cfg)) m = false.
+Proof. vm_compute. auto. Qed.
+
